@@ -183,6 +183,16 @@ pub fn corpus(rg: &mut Rg, per_class: usize) -> Vec<EnumSpec> {
         let r = *rg.pick(&gen::REPRS);
         specs.push(gen::gen_repr(rg, r, &derives(&["FromRepr"])));
         specs.push(gen::gen_shape(rg));
+        // every derive also on its own: a helper attribute (`#[strum(crate = ..)]`) must be registered by each of them
+        let mut only_is = gen::gen_shape(rg);
+        only_is.derives = derives(&["EnumIs"]);
+        specs.push(only_is);
+        let mut only_try = gen::gen_shape(rg);
+        only_try.derives = derives(&["EnumTryAs"]);
+        specs.push(only_try);
+        specs.push(gen::gen_iter(rg, &gen::IterCfg { derives: derives(&["VariantArray"]), max_variants: 5, fieldless: true, ..Default::default() }));
+        specs.push(gen::gen_iter(rg, &gen::IterCfg { derives: derives(&["EnumCount"]), max_variants: 5, ..Default::default() }));
+        specs.push(gen::gen_iter(rg, &gen::IterCfg { derives: derives(&["EnumIter"]), max_variants: 5, ..Default::default() }));
         let ne = rg.range(1, 5);
         specs.push(gen::gen_table(rg, ne));
         specs.push(gen::gen_disc(rg));
@@ -281,13 +291,16 @@ pub fn run(env: &Env, tier: &str, seed: u64, out: &mut Outcome) {
             s.rust_name = if i % 4 == 0 { String::new() } else { "En".to_string() };
         }
         let mut handles = Vec::new();
-        for cfgk in [Config::NoStd, Config::Renamed, Config::Shadowed] {
+        // configuration A is compiled in both profiles (cfg(debug_assertions) must not matter)
+        for (cfgk, profile) in [(Config::NoStd, "dev"), (Config::NoStd, "rel"), (Config::Renamed, "dev"), (Config::Shadowed, "dev")] {
             let specs = specs.clone();
             let envc = Env { verif: env.verif.clone(), repo: env.repo.clone() };
             handles.push(std::thread::spawn(move || {
                 let items: Vec<Item> = specs.iter().enumerate().map(|(i, s)| Item { spec: s.clone(), module: module_plain(s, cfgk, i) }).collect();
-                let mut cfg = CrateCfg::new(&envc, "C19", cfgk.tag());
+                let sub = if profile == "rel" { format!("{}-release", cfgk.tag()) } else { cfgk.tag().to_string() };
+                let mut cfg = CrateCfg::new(&envc, "C19", &sub);
                 cfg.id = format!("c19{}", &cfgk.tag()[..1].to_lowercase());
+                cfg.profile = profile.to_string();
                 cfg.lib_only = true;
                 cfg.with_vrt = false;
                 cfg.target_dir = Some(envc.verif.join("target").join(format!("c19{}", &cfgk.tag()[..1].to_lowercase())));
@@ -369,6 +382,23 @@ pub fn run(env: &Env, tier: &str, seed: u64, out: &mut Outcome) {
                 });
             }
         }
+        // configuration A, last step: the same no_std library linked as a final artifact (cdylib, panic = abort)
+        // without any allocator. `extern crate alloc` inside generated code passes `cargo check` and fails here.
+        if out.inconclusive.is_none() && out.violations.is_empty() {
+            out.agg.evaluations += specs.len() as u64;
+            *out.agg.classes.entry("config:A-no_std:linked-without-allocator".into()).or_insert(0) += specs.len() as u64;
+            match link_probe(env, &specs) {
+                Ok(None) => {}
+                Ok(Some((spec, msg))) => out.violations.push(Violation {
+                    kind: "deps:A-no_std:allocator-required".into(),
+                    enum_name: spec.name.clone(),
+                    spec: Some(spec),
+                    detail: json!({"configuration": "A-no_std", "message": msg, "step": "cdylib link without a global allocator"}),
+                    profile: "A-no_std".into(),
+                }),
+                Err(m) => out.inconclusive = Some(m),
+            }
+        }
         if round == 0 {
             for s in specs.iter().step_by(specs.len() / 4 + 1).take(4) {
                 out.agg.samples.push(json!({"enum": s.name, "derives": s.derives, "classes": classes(s), "source": module_plain(s, Config::Renamed, 1).src.text}));
@@ -380,6 +410,54 @@ pub fn run(env: &Env, tier: &str, seed: u64, out: &mut Outcome) {
     }
     out.agg.nontrivial += triples.len() as u64;
     out.extra.insert("template_class_config_pairs".into(), json!(triples.len()));
+}
+
+const PANIC_HANDLER: &str = "#[panic_handler] fn __verif_panic(_: &::core::panic::PanicInfo) -> ! { loop {} }";
+
+/// Ok(true) = the crate made of `specs` needs a global allocator
+fn link_needs_alloc(env: &Env, specs: &[EnumSpec]) -> Result<(bool, String), String> {
+    let items: Vec<Item> = specs.iter().enumerate().map(|(i, s)| Item { spec: s.clone(), module: module_plain(s, Config::NoStd, i) }).collect();
+    let mut cfg = CrateCfg::new(env, "C19", "A-no_std-link");
+    cfg.id = "c19l".into();
+    cfg.lib_only = true;
+    cfg.with_vrt = false;
+    cfg.cdylib = true;
+    cfg.target_dir = Some(env.verif.join("target").join("c19a"));
+    cfg.header = vec!["#![no_std]".into(), "#![allow(warnings)]".into(), PANIC_HANDLER.into()];
+    cfg.strum_default_features = false;
+    cfg.strum_features = vec!["derive".into()];
+    let em = emit_crate(env, &cfg, &items, &BTreeSet::new()).map_err(|e| e.to_string())?;
+    let b = cargo_build(env, &cfg, &em, false);
+    if b.timed_out {
+        return Err("link probe: cargo build watchdog".into());
+    }
+    if let Some(e) = b.foreign.iter().find(|e| e.message.contains("global memory allocator")) {
+        return Ok((true, e.message.clone()));
+    }
+    if !b.success {
+        let first = b.errors.first().map(|e| e.rendered.clone()).or_else(|| b.foreign.first().map(|e| e.rendered.clone())).unwrap_or(b.stderr_tail);
+        return Err(format!("link probe failed for another reason: {}", first.lines().take(12).collect::<Vec<_>>().join("\n")));
+    }
+    Ok((false, String::new()))
+}
+
+/// the first program (by bisection) whose generated code pulls in an allocator, if any
+fn link_probe(env: &Env, specs: &[EnumSpec]) -> Result<Option<(EnumSpec, String)>, String> {
+    let (needs, msg) = link_needs_alloc(env, specs)?;
+    if !needs {
+        return Ok(None);
+    }
+    let mut set: Vec<EnumSpec> = specs.to_vec();
+    while set.len() > 1 {
+        let half = set.len() / 2;
+        let first: Vec<EnumSpec> = set[..half].to_vec();
+        if link_needs_alloc(env, &first)?.0 {
+            set = first;
+        } else {
+            set = set[half..].to_vec();
+        }
+    }
+    Ok(Some((set.remove(0), msg)))
 }
 
 /// replay: compile the one spec under the recorded configuration
@@ -430,6 +508,20 @@ pub fn replay(env: &Env, doc: &serde_json::Value) -> (i32, Outcome) {
         }
         if cfgk != Config::Renamed {
             break;
+        }
+    }
+    if cfgk == Config::NoStd && out.violations.is_empty() && out.inconclusive.is_none() {
+        out.agg.evaluations += 1;
+        match link_needs_alloc(env, &[spec.clone()]) {
+            Ok((true, msg)) => out.violations.push(Violation {
+                kind: "deps:A-no_std:allocator-required".into(),
+                enum_name: spec.name.clone(),
+                spec: Some(spec.clone()),
+                detail: json!({"configuration": "A-no_std", "message": msg, "step": "cdylib link without a global allocator"}),
+                profile: "A-no_std".into(),
+            }),
+            Ok((false, _)) => {}
+            Err(m) => out.inconclusive = Some(m),
         }
     }
     let code = if out.inconclusive.is_some() { 2 } else if !out.violations.is_empty() { 1 } else { 0 };
